@@ -223,10 +223,14 @@ def run_config(chk, facts, cfg):
                 inv[b.path][k] += 1
                 where.setdefault((b.path, k), (b.file, t.line))
     total = 0
+    from ..zone import inventory_slack, draw_slack
+    slack = inventory_slack(conf, inv)
     for p, counts in sorted(inv.items()):
         for k, n in counts.items():
             total += n
             allowed = conf.get(p, {}).get("counts", {}).get(k, 0)
+            if n > allowed and draw_slack(slack, p, k, n - allowed):
+                allowed = n      # the confirmed function was renamed / moved inside its module
             f_, l_ = where[(p, k)]
             chk.ob("C01-g", f"{p}: {n} {k} site(s)", n <= allowed, why=conf.get(p, {}).get("reason"), key=f"panic|{p}|{k}", file=f_, line=l_, fn=p,
                    detail=f"{n} explicit `{k}` site(s) but {allowed} confirmed: read-fonts promises never to panic on any input; a new "
